@@ -2,6 +2,7 @@ package props
 
 import (
 	"encoding/json"
+	"exoverif/sim"
 	"math/big"
 	"os"
 	"testing"
@@ -21,10 +22,17 @@ func init() {
 		ID: "C02",
 		Rule: "rapid histories of the world machine weighted to share-moving operations (3+ co-delegators, slashes to reach rates != 1), plus function-level generation of the share<->token conversions; " +
 			"non-trivial = a delegate/undelegate touched a pool that has other delegators and an exchange rate != 1; distinct = hash of the (kind, outcome) sequence",
-		Gen:        GenOpts{Weights: w, HostilePct: 5, ExtremePct: 0, MaxDt: 30, Anchor: true, Focus: true, Tempos: []int{4, 12, 40}, CapBits: 90},
-		MinSteps:   20,
-		MaxSteps:   70,
-		Config:     worldConfig,
+		Gen:      GenOpts{Weights: w, HostilePct: 5, ExtremePct: 0, MaxDt: 30, Anchor: true, Focus: true, Tempos: []int{4, 12, 40}, CapBits: 90},
+		MinSteps: 20,
+		MaxSteps: 70,
+		Config: func(t *rapid.T) sim.Config {
+			cfg := worldConfig(t)
+			// a third client chain whose LayerZero id, written in hexadecimal, is a prefix of the
+			// other two chains' ids: staker ids of the same account on different chains then share
+			// a textual prefix
+			cfg.ExtraChains = []uint64{6}
+			return cfg
+		},
 		Invariants: func() []Invariant { return []Invariant{&sharesInv{}} },
 		Tail:       shortDrain,
 		NonTrivial: func(m *Machine, invs []Invariant) (bool, []string) {
